@@ -280,6 +280,9 @@ def build(tier):
     vcs += r[0]; fns += r[1]
     r = al_body('augmented_lagrangian_do_vgrad', 'augmented Lagrangian term of one constraint')
     vcs += r[0]; fns.append(r[1])
+    import kkt
+    vcs += kkt.criterion(fns)
+    vcs += kkt.kkt(fns)
     # corollary (pure SMT lemma on the formulas): at a feasible point with zero multipliers every term vanishes
     vcs.append(VC('lemma/feasible point, zero multipliers: every penalty and AL term is 0',
                   '(declare-const rho Real)(declare-const h Real)(declare-const g Real)(assert (> rho 0.0))(assert (= h 0.0))(assert (<= g 0.0))\n'
